@@ -1,6 +1,7 @@
 package main
 
 import (
+	"sort"
 	"crypto/sha256"
 	"strconv"
 	"bytes"
@@ -131,6 +132,48 @@ func solveAll(units []*UnitResult, cfg solveConfig) (disagreements []string) {
 	}
 	close(ch)
 	wg.Wait()
+	// Thorough tier: stability probe. Every discharged obligation is re-run with two other solver seeds (z3-new,
+	// short limit); the number that is NOT re-proved by either is reported in the evidence (coverage.seed_unstable):
+	// such proofs hang on one lucky instantiation order and are the ones a harmless edit can turn into an alarm.
+	if cfg.all && os.Getenv("GOVC_NOSTABILITY") == "" {
+		var mu2 sync.Mutex
+		ch3 := make(chan job)
+		var wg3 sync.WaitGroup
+		for i := 0; i < cfg.jobs; i++ {
+			wg3.Add(1)
+			go func() {
+				defer wg3.Done()
+				for j := range ch3 {
+					file := oblFile(cfg, j.o.Name)
+					proved := 0
+					for _, sd := range []int{1, 2} {
+						sp := solverSpec{"z3-new", func(f string, t int) []string {
+							return []string{"z3-new", fmt.Sprintf("-T:%d", t), fmt.Sprintf("smt.random_seed=%d", sd), fmt.Sprintf("sat.random_seed=%d", sd), f}
+						}}
+						if r := runSolver(sp, file, 10); r.verdict == "unsat" {
+							proved++
+						}
+					}
+					mu2.Lock()
+					StabilityProbed++
+					if proved == 0 {
+						StabilityUnstable = append(StabilityUnstable, j.o.Name)
+					}
+					mu2.Unlock()
+				}
+			}()
+		}
+		for _, j := range jobs {
+			if !j.o.Cover && j.o.Status == "discharged" && j.o.Backend != "syntactic" {
+				if _, err := os.Stat(oblFile(cfg, j.o.Name)); err == nil {
+					ch3 <- j
+				}
+			}
+		}
+		close(ch3)
+		wg3.Wait()
+		sort.Strings(StabilityUnstable)
+	}
 	// Second chance for obligations that were left undecided (or only got a candidate countermodel from the
 	// relaxed query) because a solver ran into its time limit: on a loaded machine that is not evidence of
 	// anything. They are re-run a few at a time with three times the limit.
@@ -457,3 +500,9 @@ func stageDelay(k int) time.Duration {
 	}
 	return time.Duration(unit) * time.Millisecond
 }
+
+// results of the thorough tier's stability probe (see solveAll)
+var (
+	StabilityProbed   int
+	StabilityUnstable []string
+)
